@@ -643,7 +643,9 @@ func redactArrayValuesWithKey(parentKey string, arr []any, redactFieldNames bool
 						arr[i] = item
 					}
 				} else {
-					arr[i] = redactScalarValue([]string{parentKey}, item, isSearchStage, isSelectivelyRedactable)
+					// selective mode: the field names on the path above the array decide, too
+					selective := isSelectivelyRedactable || reMatchesAnyKeyInPath(&keyPath, redactedFieldsRegexp)
+					arr[i] = redactScalarValue([]string{parentKey}, item, isSearchStage, selective)
 				}
 			}
 		}
